@@ -78,7 +78,7 @@ def main():
             if b.returncode != 0:
                 rec["status"] = "does not build"; rec["log"] = b.stdout[-400:]
             else:
-                t = sh("go test -vet=off -count=1 ./... 2>&1 | tail -15", wt)
+                t = sh("go test -vet=off -count=1 -timeout 90s ./... 2>&1 | tail -15", wt)
                 if "FAIL" in t.stdout:
                     rec["status"] = "caught by the existing suite (not a realistic seeded change)"
                 else:
